@@ -212,9 +212,32 @@ def check_C(S, p):
             S.sample({"level": "C", "writer": w.argv, "format": fmt, "transport": transport, "produced_head": produced[:80].decode("latin1")})
 
 
+def check_C_npy_stdout(S, p):
+    """`view -O npy` to a PIPE for payloads of several KiB that contain every byte value (stdout is line buffered: a payload
+    byte 0x0A must not cut the stream), read back by `view -O npy`: bit-identical."""
+    import struct
+    rng = rng_for(S.seed, "c07", p["name"], "npy-stdout")
+    n = rng.choice([300, 700, 2000])
+    vals = [rng.uniform(-1000, 1000) for _ in range(n)] + [3.25, 213000.0, 4106.0, 10.0]
+    rng.shuffle(vals)
+    shape = [len(vals)]
+    src = GS.npy_bytes(shape, vals)
+    a = cli.sfs(["view", "-O", "npy"], stdin=src)
+    b = cli.sfs(["view", "-O", "npy"], stdin=a.out)
+    S.count("C_matrix_runs", 2)
+    S.count("C_npy_stdout_roundtrips")
+    want = b"".join(struct.pack("<d", v) for v in vals)
+    from .. import replay as R
+    if a.rc != 0 or b.rc != 0 or not a.out.endswith(want) or not b.out.endswith(want) or a.out != b.out:
+        S.viol("C07:npy-stdout", "[C view -O npy | view -O npy, %d values, payload contains 0x0A: %s] rc %s/%s, %d and %d bytes written, payload needs %d" % (
+            len(vals), b"\n" in want, a.rc, b.rc, len(a.out), len(b.out), len(want)), {"level": "C", "input_b64": E.b64(src), "replay": R.exact(a, src[:len(src) - len(want)] + want) if False else R.same(a, b)})
+    S.case(key=digest([GS.hexes(vals)[:50], "npy-stdout"]), nontrivial=True)
+
+
 def shard(S, p):
     if "replay" in p:
         S.inconc("witness carries the request / argv for manual replay")
         return
     check_L(S, p)
     check_C(S, p)
+    check_C_npy_stdout(S, p)
